@@ -1,5 +1,5 @@
 (* C05 — replaying a subscriber's diffs reproduces each vector state, step by step. *)
-From EB Require Import OVec OVecRun OVecFacts OVecExtra OVecStepwise.
+From EB Require Import OVecDrain OVecDrainFacts OVec OVecRun OVecFacts OVecExtra OVecStepwise.
 
 (* the diff a mutating call publishes is strictly applicable to the contents before the call and
    produces exactly the contents after it; nothing is published only for the documented no-ops
@@ -107,3 +107,19 @@ Example C05_nonvacuous :
                            OPoll 0; OPoll 0; OPoll 0] in
   map (@gh_delivered nat) (g_gh g) = [[PushBack 1; PopFront; Insert 0 7]] /\ values (g_o g) = [7].
 Proof. split; reflexivity. Qed.
+
+(* ---- polls that race the sender (OVecDrain.v): the vector publishes between the receive attempts
+   of one poll; the statements above survive ---- *)
+Theorem C05_racing_polls_all_applicable {A} capacity (cs : list (cop A)) :
+  g_app_ok (c_run (ginit capacity) cs) = true.
+Proof. exact (c_all_applicable capacity cs). Qed.
+Print Assumptions C05_racing_polls_all_applicable.
+
+Theorem C05_racing_polls_never_lagged_gets_everything {A} capacity (cs : list (cop A)) k s gh :
+  let g := c_run (ginit capacity) cs in
+  nth_error (subs (g_o g)) k = Some (Some s) -> nth_error (g_gh g) k = Some gh ->
+  gh_lagged gh = false ->
+  gh_delivered gh ++ sub_pending (g_o g) s
+  = concat (map (@m_diffs A) (skipn (gh_start gh) (log (g_o g)))).
+Proof. exact (c_never_lagged_gets_everything capacity cs k s gh). Qed.
+Print Assumptions C05_racing_polls_never_lagged_gets_everything.
